@@ -166,7 +166,8 @@ theorem tagged_lex (U : UClass) (n : Nat) (hn : 10 ≤ n % 16) (s rest : List Ch
 
 theorem dollarLoop_spec (text : List Char) :
     ∀ (f : Nat) (quote : List Char) (qq : Nat) (t : List Char), GoodTag quote →
-      dollarLoop text f quote qq = some t → GoodTag t ∧ contains t text = false := by
+      dollarLoop text f quote qq = some t →
+        GoodTag t ∧ contains t (text ++ t.dropLast) = false := by
   intro f
   induction f with
   | zero => intro quote qq t _ h; simp [dollarLoop] at h
@@ -181,15 +182,13 @@ theorem dollarLoop_spec (text : List Char) :
       exact ⟨hg, by simpa using hc⟩
 
 theorem dollarTag_spec (s t : List Char) (h : dollarTag s = some t) :
-    GoodTag t ∧ contains t s = false :=
+    GoodTag t ∧ contains t (s ++ t.dropLast) = false :=
   dollarLoop_spec s _ _ _ t (Or.inl rfl) h
 
-/-- the texts `dollar_quote_literal` delimits correctly -/
+/-- the texts a dollar string can carry at all: it has no escapes, so no NUL
+    and no bidi control -/
 def dollarExpressible (s : List Char) : Bool :=
-  s.all (fun c => (checkProhibited c false).isNone) &&
-  match dollarTag s with
-  | some t => !contains t (s ++ t.dropLast)
-  | none => false
+  s.all (fun c => (checkProhibited c false).isNone)
 
 theorem goodTag_lex (U : UClass) (t s rest : List Char) (hg : GoodTag t)
     (hp : ∀ c ∈ s, checkProhibited c false = none)
@@ -214,8 +213,7 @@ theorem dollarQuote_lex (U : UClass) (s q rest : List Char)
   | some t =>
     simp [ht] at hq
     subst hq
-    simp only [dollarExpressible, ht, Bool.and_eq_true, List.all_eq_true, Bool.not_eq_true',
-      Option.isNone_iff_eq_none] at he
-    simpa using goodTag_lex U t s rest (dollarTag_spec s t ht).1 he.1 he.2
+    simp only [dollarExpressible, List.all_eq_true, Option.isNone_iff_eq_none] at he
+    simpa using goodTag_lex U t s rest (dollarTag_spec s t ht).1 he (dollarTag_spec s t ht).2
 
 end EdbVerif.Lex
